@@ -550,6 +550,7 @@ type ReturnSplit struct {
 	Nil, Err *ssa.Return
 	Idx      int       // index of the error result
 	Val      ssa.Value // the call result passed through
+	Tested   bool      // a branch has compared Val with nil (see SplitOf)
 }
 
 var (
@@ -609,11 +610,49 @@ func SplitOf(ret *ssa.Return) *ReturnSplit {
 			return nil
 		}
 	}
-	// only a value that no branch has tested: "err := f(); if err != nil {…}; return err"
-	// already has its own branch
+	// a value that a branch has tested: "err := f(); if err != nil {…; return err}"
+	// has its own branch and is an error return – unless the return can also
+	// be reached from the nil edge of that branch ("if err != nil {cleanup};
+	// return err"): then it is both, and the automaton decides per path from
+	// the recorded outcome of the test which of the two logical returns it is
+	tested := false
 	if refs := v.Referrers(); refs != nil {
 		for _, r := range *refs {
-			if b, ok := r.(*ssa.BinOp); ok && (b.Op == token.NEQ || b.Op == token.EQL) {
+			b, ok := r.(*ssa.BinOp)
+			if !ok || (b.Op != token.NEQ && b.Op != token.EQL) || !(isNilConst(b.X) || isNilConst(b.Y)) {
+				if ok && (b.Op == token.NEQ || b.Op == token.EQL) {
+					return nil // compared with a sentinel: leave alone
+				}
+				continue
+			}
+			tested = true
+			mayBeNil := false
+			var walk func(x ssa.Value, neg bool, depth int)
+			walk = func(x ssa.Value, neg bool, depth int) {
+				rs := x.Referrers()
+				if rs == nil || depth > 3 {
+					return
+				}
+				for _, u := range *rs {
+					switch t := u.(type) {
+					case *ssa.If:
+						errOnTrue := (b.Op == token.NEQ) != neg
+						okSucc := t.Block().Succs[1]
+						if !errOnTrue {
+							okSucc = t.Block().Succs[0]
+						}
+						if reachesAvoiding(okSucc, ret.Block(), call.Block()) {
+							mayBeNil = true
+						}
+					case *ssa.UnOp:
+						if t.Op == token.NOT {
+							walk(t, !neg, depth+1)
+						}
+					}
+				}
+			}
+			walk(b, false, 0)
+			if !mayBeNil {
 				return nil
 			}
 		}
@@ -625,7 +664,7 @@ func SplitOf(ret *ssa.Return) *ReturnSplit {
 		synthOrig[r] = ret
 		return r
 	}
-	sp = &ReturnSplit{Orig: ret, Idx: idx, Val: v}
+	sp = &ReturnSplit{Orig: ret, Idx: idx, Val: v, Tested: tested}
 	sp.Nil = mk(ssa.NewConst(nil, errorType))
 	sp.Err = mk(v)
 	return sp
